@@ -168,6 +168,21 @@ func init() {
 			}
 			return n
 		},
+		// verifRunUntilBlocked(f func()) bool: runs f like a goroutine of its own; true if f parked on a blocking
+		// operation (channel, lock, WaitGroup) instead of finishing. The parked frames are abandoned.
+		"verifRunUntilBlocked": func(fr *frame, args []value) (res value) {
+			defer func() {
+				if r := recover(); r != nil {
+					if pa, ok := r.(pathAbort); ok && pa.kind == "blocked" {
+						res = true
+						return
+					}
+					panic(r)
+				}
+			}()
+			call(fr.i, fr, token.NoPos, args[0], nil)
+			return false
+		},
 		"verifDropSpawned": func(fr *frame, args []value) value {
 			n := len(fr.i.spawned)
 			fr.i.spawned = nil
@@ -412,12 +427,21 @@ func DefaultExternals() map[string]externalFn {
 			return tuple{&cell, iface{}}
 		},
 		"(*regexp.Regexp).MatchString": func(fr *frame, args []value) value {
+			if _, ok := args[1].(symString); ok {
+				return fr.rxMatchString(nativeRegexp(args[0]), args[1])
+			}
 			return nativeRegexp(args[0]).MatchString(concreteString(args[1], "Regexp.MatchString"))
 		},
 		"(*regexp.Regexp).FindString": func(fr *frame, args []value) value {
+			if _, ok := args[1].(symString); ok {
+				return fr.rxFindString(nativeRegexp(args[0]), args[1])
+			}
 			return nativeRegexp(args[0]).FindString(concreteString(args[1], "Regexp.FindString"))
 		},
 		"(*regexp.Regexp).FindStringSubmatch": func(fr *frame, args []value) value {
+			if _, ok := args[1].(symString); ok {
+				return fr.rxFindStringSubmatch(nativeRegexp(args[0]), args[1])
+			}
 			r := nativeRegexp(args[0]).FindStringSubmatch(concreteString(args[1], "Regexp.FindStringSubmatch"))
 			if r == nil {
 				return []value(nil)
